@@ -27,12 +27,27 @@ pub fn build_world(
     max_depth: usize,
     vary: bool,
 ) -> Built {
+    build_world_act(rng, pow, main_len, forks, max_depth, vary, 0)
+}
+
+/// `act`: the epoch from which on headers carry the chain root of their parent (blocks up to the first block of
+/// that epoch have no extension); the client must be configured with the same number.
+pub fn build_world_act(
+    rng: &mut StdRng,
+    pow: &str,
+    main_len: usize,
+    forks: usize,
+    max_depth: usize,
+    vary: bool,
+    act: u64,
+) -> Built {
     let p = ChainParams {
         pow: pow.to_owned(),
         epoch_len: (2, if main_len > 200 { 40 } else { 6 }),
         vary_difficulty: vary,
     };
     let mut chain = SimChain::new(pow, &gen::default_scripts());
+    chain.mmr_activated_epoch = act;
     let main = gen::extend(&mut chain, 0, main_len, &p, rng);
     let mut leaves = vec![main];
     for _ in 0..forks {
@@ -52,6 +67,9 @@ fn honest_scenario(rng: &mut StdRng, sc: usize, out: Box<dyn std::io::Write>, kv
     let main_len = rng.gen_range(1..=max_len);
     let last_n = *[1u64, 2, 3, 5, 10][..].get(rng.gen_range(0..5)).unwrap();
     let npeers = rng.gen_range(1..=3usize);
+    // the RFC 44 activation epoch: from the start, or somewhere inside the chain (headers up to the first block of
+    // that epoch carry no chain root; they appear as tips, samples, last-N and reorg headers all the same)
+    let act = *[0u64, 0, 1, 2, 3, 5][..].get(rng.gen_range(0..6)).unwrap();
     // C05 is about forks shallower than last-N: every block above the lowest fork point must be
     // within last_n of it, whichever branch the client currently follows.
     let mut built;
@@ -59,7 +77,7 @@ fn honest_scenario(rng: &mut StdRng, sc: usize, out: Box<dyn std::io::Write>, kv
     loop {
         let forks = if main_len > 3 && last_n >= 2 { rng.gen_range(0..=2usize) } else { 0 };
         let forks = if tries > 20 { 0 } else { forks };
-        built = build_world(rng, pow, main_len, forks, ((last_n as usize) / 2).max(1), true);
+        built = build_world_act(rng, pow, main_len, forks, ((last_n as usize) / 2).max(1), true, act);
         tries += 1;
         let c = &built.chain;
         let lowest_fork = (0..c.blocks.len())
@@ -78,6 +96,7 @@ fn honest_scenario(rng: &mut StdRng, sc: usize, out: Box<dyn std::io::Write>, kv
     let cfg = Config {
         last_n,
         max_outbound: npeers as u32,
+        mmr_activated_epoch: act,
         ..Default::default()
     };
     let leaves = built.leaves.clone();
@@ -293,11 +312,16 @@ fn tipeq_scenario(rng: &mut StdRng, sc: usize, out: Box<dyn std::io::Write>, _kv
         env.send_last_state(&mut sim, i);
         while env.answer_proof(&mut sim, i) {}
     }
-    // peer 1 proves a1
-    env.grow(&sim, 1, 1);
-    env.send_last_state(&mut sim, 1);
-    env.refresh(&mut sim);
-    while env.answer_proof(&mut sim, 1) {}
+    // peer 1 proves a1 -- or (every other scenario) stays proven at the common ancestor, so that the tip of F is not
+    // a child of its proven header and has to be proved by a last-state proof: the commit of that proof, not the
+    // child fast path, then meets a tip that is exactly as heavy as the stored one
+    let via_proof = sc % 2 == 1;
+    if !via_proof {
+        env.grow(&sim, 1, 1);
+        env.send_last_state(&mut sim, 1);
+        env.refresh(&mut sim);
+        while env.answer_proof(&mut sim, 1) {}
+    }
     // peer 0 proves the main leaf: heavier, a fork of depth 1
     env.grow(&sim, 0, 2);
     env.send_last_state(&mut sim, 0);
@@ -306,7 +330,7 @@ fn tipeq_scenario(rng: &mut StdRng, sc: usize, out: Box<dyn std::io::Write>, _kv
     env.enforce_bans(&mut sim);
     // peer 1 announces the child of its proven header: as heavy as the stored tip
     if env.peers[1].connected {
-        env.grow(&sim, 1, 1);
+        env.grow(&sim, 1, if via_proof { 2 } else { 1 });
         env.send_last_state(&mut sim, 1);
         env.refresh(&mut sim);
         while env.peers[1].connected && env.answer_proof(&mut sim, 1) {}
